@@ -154,3 +154,13 @@ M("c12-ifft-no-length", "C12", FS, "        tim_ar = ifftn(self.data, self.heade
 M("c12-conv-goodsize", "C12", K, "    n_good = nb_fft_good_size(n, real=True)\n    sp1 = np.fft.rfft(in1, n_good)", "    n_good = nb_fft_good_size(max(n1, n2) + min(n1, n2) // 2, real=True)\n    sp1 = np.fft.rfft(in1, n_good)", "transform too short when the kernel is longer than 2 taps: circular wrap-around")
 M("c12-mspec", "C12", K, "        mspec[i] = np.sqrt(fspec[i].real ** 2 + fspec[i].imag ** 2)", "        mspec[i] = max(abs(fspec[i].real), abs(fspec[i].imag))")
 M("c12-correlate-operand", "C12", T, "            other_data = other.data\n        elif isinstance(other, np.ndarray):", "            other_data = other.data[: max(1, other.data.size - (other.data.size > 7))]\n        elif isinstance(other, np.ndarray):", "TimeSeries operands longer than 7 lose their last sample")
+
+# ---- C13
+FI = "sigpyproc/core/filters.py"
+M("c13-no-time-reversal", "C13", K, "        temp_pad = np.roll(temp_pad[::-1], 1)", "        temp_pad = np.roll(temp_pad, 0)")
+M("c13-ref-bin-off-by-one", "C13", K, "        temp_pad = np.roll(temp_pad, -ref_bin[itemp])", "        temp_pad = np.roll(temp_pad, -ref_bin[itemp] + (ref_bin[itemp] > 0))", "peak-referenced templates aligned one bin late")
+M("c13-normalise-before-padding", "C13", K, "        temp_pad = np.zeros_like(data_pad)\n        temp_pad[: len(temp_kernel)] = temp_kernel\n", "        temp_pad = np.zeros_like(data_pad)\n        temp_pad[: len(temp_kernel)] = normalize_template(temp_kernel.astype(data_pad.dtype)) if len(temp_kernel) > 1 else temp_kernel\n", "")
+M("c13-irfft-no-length", "C13", K, "        conv = np.fft.irfft(data_fft * np.fft.rfft(temp_norm), len(data_pad))", "        conv = np.fft.irfft(data_fft * np.fft.rfft(temp_norm))", "original defect (odd padded length)", )
+M("c13-argmax-abs", "C13", FI, "            self._convs.argmax(),", "            np.abs(self._convs).argmax(),", "peak taken at the largest absolute response")
+M("c13-pad-zero-not-circular", "C13", K, "        result[i] = arr[i % n]\n    return result", "        result[i] = arr[i] if i < n else 0\n    return result", "data zero-padded instead of circularly continued")
+M("c13-snr-first-template", "C13", FI, "        self._best_snr = self._convs[self._itemp, self._peak_bin]", "        self._best_snr = self._convs[min(self._itemp, len(self.temp_bank) - 2), self._peak_bin]", "")
